@@ -85,7 +85,12 @@ fn main() {
             let m = stores.clone();
             let role = c.clone();
             let p = progs[c].clone();
-            handles.push(std::thread::spawn(move || client_main_multi(m, role, p)));
+            handles.push(
+                std::thread::Builder::new()
+                    .name(format!("store-pool_thread_{}", role))
+                    .spawn(move || client_main_multi(m, role, p))
+                    .unwrap(),
+            );
         }
         let deadline = Instant::now() + Duration::from_secs(10);
         let mut outcome = "finished";
